@@ -78,7 +78,6 @@ theorem leaveMarkedAt_shift (d : Int) (c : CalEnv) (rc : ResCal) (n : Int) :
   have e1 : iv.1 + d - (c.start + d) = iv.1 - c.start := by omega
   have e2 : iv.2 + d - (c.start + d) = iv.2 - c.start := by omega
   simp only [Function.comp, shiftCal, e1, e2]
-  rfl
 
 /-! ### inheritance commutes with mapping the attribute -/
 
